@@ -1,3 +1,534 @@
-/-! C12 model (stub) -/
+/-!
+# C12 model — confmap resolution: merge, expansion, escaping, termination
+
+Mirrors (branch by branch) `confmap/resolver.go Resolve`, `escapeDollarSigns`, `confmap/expand.go`
+(`expandValueRecursively`, `expandValue`, `findURI`, `findAndExpandURI`, `expandURI`, `newLocation`),
+`confmap/provider.go` (`Retrieved.AsString/AsRaw/AsConf`), `confmap/confmap.go` (`Merge`, `sanitize`,
+`useExpandValue`) and the parts of koanf that `Resolve` goes through (`maps.Merge`, `maps.Flatten`,
+`Koanf.Keys` (sorted), `maps.Unflatten`).
+
+The code modelled is the *repaired* one (worktree commits `fix: confmap expansion replaces only the
+reference it found…` and `fix: confmap keeps looking for references after an escaped one`): `findURI`
+returns the offsets of the reference and skips escaped candidates.  The two pinned behaviours are kept
+as `Mode.pinned` so the defects are kernel-checked witnesses in `Props/C12.lean`.
+
+Strings are byte strings: `Str = List Char`, one `Char` per byte (the algorithm only compares bytes with
+`$ { } :` and ASCII classes).  Core Lean only.
+-/
 namespace OtelVerif.C12
+
+abbrev Str := List Char
+
+/-! ## values (`any` restricted to what `checkRawConfType` admits, plus `expandedValue`) -/
+
+mutual
+inductive Val where
+  | null
+  | bool (b : Bool)
+  | int (i : Int)
+  | float (bits : Nat)
+  | other (tag : Str)            -- any other atom (time.Time, uint64 …): opaque
+  | str (s : Str)
+  | list (xs : Vals)
+  | map (kvs : KVs)
+  | expanded (v : Val) (orig : Str)   -- expandedValue{Value, Original}
+inductive Vals where
+  | nil
+  | cons (v : Val) (vs : Vals)
+inductive KVs where
+  | nil
+  | cons (k : Str) (v : Val) (rest : KVs)
+end
+
+instance : Inhabited Val := ⟨.null⟩
+
+def Vals.toList : Vals → List Val
+  | .nil => []
+  | .cons v vs => v :: vs.toList
+
+def Vals.ofList : List Val → Vals
+  | [] => .nil
+  | v :: vs => .cons v (Vals.ofList vs)
+
+def KVs.toList : KVs → List (Str × Val)
+  | .nil => []
+  | .cons k v r => (k, v) :: r.toList
+
+def KVs.ofList : List (Str × Val) → KVs
+  | [] => .nil
+  | (k, v) :: r => .cons k v (KVs.ofList r)
+
+def KVs.lookup (k : Str) : KVs → Option Val
+  | .nil => none
+  | .cons k' v r => if k' = k then some v else r.lookup k
+
+/-- `b[k] = v` on an association list: replace in place, else append -/
+def KVs.set (k : Str) (v : Val) : KVs → KVs
+  | .nil => .cons k v .nil
+  | .cons k' v' r => if k' = k then .cons k' v r else .cons k' v' (r.set k v)
+
+def KVs.isEmpty : KVs → Bool
+  | .nil => true
+  | _ => false
+
+def KVs.keys : KVs → List Str
+  | .nil => []
+  | .cons k _ r => k :: r.keys
+
+/-! ## merge (`koanf maps.Merge(a, b)`: merge the later source `a` into the accumulated `b`) -/
+
+/-- `for key, val := range a { … }` -/
+def mergeKVs : KVs → KVs → KVs
+  | .nil, b => b
+  | .cons k v rest, b =>
+    match b.lookup k with
+    | none => mergeKVs rest (b.set k v)                             -- key does not exist in the target: add
+    | some bv =>
+      match v, bv with
+      | .map am, .map bm => mergeKVs rest (b.set k (.map (mergeKVs am bm)))
+      | _, _ => mergeKVs rest (b.set k v)
+
+/-- `Retrieved.AsConf` of a source: nil → empty Conf; a map → that map; anything else is an error -/
+def asConf : Val → Option KVs
+  | .null => some .nil
+  | .map m => some m
+  | _ => none
+
+/-- `retMap := New(); for each source: retMap.Merge(src)` -/
+def mergeSources : List KVs → KVs := fun srcs => srcs.foldl (fun acc s => mergeKVs s acc) .nil
+
+/-! ## string search (`findURI`) -/
+
+def hasDollar (s : Str) : Bool := s.any (· == '$')
+def hasColon (s : Str) : Bool := s.any (· == ':')
+def hasClose (s : Str) : Bool := s.any (· == '}')
+
+/-- `strings.Contains(s, "${")` -/
+def hasOpen : Str → Bool
+  | [] => false
+  | [_] => false
+  | c :: d :: r => (c == '$' && d == '{') || hasOpen (d :: r)
+
+/-- `strings.Split(input, "}")` as (first segment, remaining segments) -/
+def splitOnClose : Str → Str × List Str
+  | [] => ([], [])
+  | c :: cs =>
+    let r := splitOnClose cs
+    if c = '}' then ([], r.1 :: r.2) else (c :: r.1, r.2)
+
+/-- inverse of `splitOnClose`: the text after the first `}` -/
+def joinClose : Str → List Str → Str
+  | s, [] => s
+  | s, t :: ts => s ++ '}' :: joinClose t ts
+
+/-- `strings.LastIndex(seg + "}", "${")` on a segment without `}`: `(seg[:open], seg[open+2:])` -/
+def lastOpen : Str → Option (Str × Str)
+  | [] => none
+  | c :: cs =>
+    match lastOpen cs with
+    | some (p, b) => some (c :: p, b)
+    | none =>
+      match cs with
+      | d :: b => if c = '$' ∧ d = '{' then some ([], b) else none
+      | [] => none
+
+/-- parity of the run of `$` that ends the string: `true` = odd.  The Go loop counts that run backwards
+from `openIndex-1`; its parity is all that is used. -/
+def oddRunFrom (p : Bool) (s : Str) : Bool := s.foldl (fun p c => if c = '$' then !p else false) p
+def oddDollarRun (s : Str) : Bool := oddRunFrom false s
+
+inductive Mode where
+  | fixed    -- repaired code
+  | pinned   -- code at the pinned commit (escaped candidate stops the search; ReplaceAll)
+  deriving DecidableEq, Repr
+
+inductive Cand where
+  | found (pre body : Str)   -- expandable `${body}` after `pre` inside this segment
+  | skip                     -- "check the next URI"
+  | stop                     -- pinned code only: escaped candidate ends the search
+
+/-- what `findURI` decides about the segment that ends at the first `}` -/
+def candidate (mode : Mode) (hasDefault : Bool) (seg : Str) : Cand :=
+  match lastOpen seg with
+  | none => .skip                                            -- openIndex < 0
+  | some (pre, body) =>
+    if !hasDefault && !hasColon body then .skip              -- no default scheme and no `:` in `${…}`
+    else if oddDollarRun pre then
+      (match mode with | .fixed => .skip | .pinned => .stop)  -- escaped
+    else .found pre body
+
+/-- `findURI` over the `}`-separated segments; result `(input[:start], body, input[end:])` with
+`input = before ++ "${" ++ body ++ "}" ++ after` -/
+def findInSegs (mode : Mode) (hasDefault : Bool) : Str → List Str → Option (Str × Str × Str)
+  | _, [] => none                                            -- no `}` left
+  | seg, t :: ts =>
+    match candidate mode hasDefault seg with
+    | .found pre body => some (pre, body, joinClose t ts)
+    | .stop => none
+    | .skip => (findInSegs mode hasDefault t ts).map (fun r => (seg ++ '}' :: r.1, r.2.1, r.2.2))
+
+def findURI (mode : Mode) (hasDefault : Bool) (input : Str) : Option (Str × Str × Str) :=
+  let r := splitOnClose input
+  findInSegs mode hasDefault r.1 r.2
+
+/-! ## providers, `expandURI` -/
+
+inductive Err where
+  | dollarInName        -- "the uri … contains unsupported characters ('$')"
+  | provider            -- the provider returned an error
+  | invalidURI          -- newLocation: "invalid uri"
+  | unsupportedScheme   -- retrieveValue: "scheme … is not supported"
+  | noString            -- embedded reference to a value without unambiguous string representation
+  | tooMany             -- errTooManyRecursiveExpansions
+  | notMap              -- a source "cannot be used as a Conf"
+  deriving DecidableEq, Repr
+
+/-- `*Retrieved`: raw value and the optional string representation (`isSetString`) -/
+structure Retrieved where
+  raw : Val
+  strRep : Option Str
+
+/-- `Retrieved.AsString` -/
+def Retrieved.asString (r : Retrieved) : Option Str :=
+  match r.strRep with
+  | some s => some s
+  | none => match r.raw with
+    | .str s => some s
+    | _ => none
+
+structure Env where
+  mode : Mode := .fixed
+  defaultScheme : Option Str := none
+  /-- schemes with a registered provider -/
+  schemes : List Str := []
+  /-- `Provider.Retrieve(scheme:opaque)`; `none` = the provider returned an error -/
+  prov : Str → Str → Option Retrieved
+  /-- number of rounds of `expandValueRecursively` (1000 in the code) -/
+  fuel : Nat := 1000
+
+def isLetter (c : Char) : Bool := ('a' ≤ c ∧ c ≤ 'z') ∨ ('A' ≤ c ∧ c ≤ 'Z')
+def isSchemeChar (c : Char) : Bool := isLetter c ∨ ('0' ≤ c ∧ c ≤ '9') ∨ c = '+' ∨ c = '.' ∨ c = '-'
+
+/-- `^[A-Za-z][A-Za-z0-9+.-]+$` -/
+def validScheme : Str → Bool
+  | c :: d :: r => isLetter c && (d :: r).all isSchemeChar
+  | _ => false
+
+/-- split at the first `:` -/
+def splitColon : Str → Option (Str × Str)
+  | [] => none
+  | c :: cs => if c = ':' then some ([], cs) else (splitColon cs).map (fun r => (c :: r.1, r.2))
+
+/-- `expandURI` on the text between `${` and `}` -/
+def expandURI (env : Env) (body : Str) : Except Err Retrieved :=
+  let uri : Str := if hasColon body then body else (env.defaultScheme.getD []) ++ ':' :: body
+  match splitColon uri with
+  | none => .error .invalidURI
+  | some (scheme, name) =>
+    if !validScheme scheme then .error .invalidURI              -- uriRegexp does not match
+    else if hasDollar name then .error .dollarInName
+    else if !env.schemes.contains scheme then .error .unsupportedScheme
+    else match env.prov scheme name with
+      | none => .error .provider
+      | some r => .ok r
+
+/-- `findAndExpandURI` -/
+def findAndExpandURI (env : Env) (input : Str) : Except Err (Val × Bool) :=
+  match findURI env.mode env.defaultScheme.isSome input with
+  | none => .ok (.str input, false)
+  | some (before, body, after) =>
+    if before.isEmpty && after.isEmpty then
+      -- uri == input: the value can be anything
+      match expandURI env body with
+      | .error e => .error e
+      | .ok ret =>
+        match ret.asString with
+        | some s => .ok (.expanded ret.raw s, true)
+        | none => .ok (ret.raw, true)
+    else
+      match expandURI env body with
+      | .error e => .error e
+      | .ok ret =>
+        match ret.asString with
+        | none => .error .noString
+        | some repl =>
+          match env.mode with
+          | .fixed => .ok (.str (before ++ repl ++ after), true)
+          | .pinned => .ok (.str (replaceAll input ('$' :: '{' :: body ++ ['}']) repl), true)
+where
+  /-- `strings.ReplaceAll` for a non-empty pattern -/
+  replaceAll (s pat repl : Str) : Str := go s.length s pat repl
+  go : Nat → Str → Str → Str → Str
+    | 0, s, _, _ => s
+    | _, [], _, _ => []
+    | n+1, c :: cs, pat, repl =>
+      if pat.isPrefixOf (c :: cs) then repl ++ go n ((c :: cs).drop pat.length) pat repl
+      else c :: go n cs pat repl
+
+/-! ## `expandValue` -/
+
+/-- errors of a Go map iteration: any failing child may be the one reported, so all are collected -/
+abbrev Errs := List Err
+
+/-- the `case string:` branch of `expandValue` -/
+def expandStr (env : Env) (s : Str) : Except Errs (Val × Bool) :=
+  if !hasOpen s || !hasClose s then .ok (.str s, false)    -- "No URIs to expand."
+  else match findAndExpandURI env s with
+    | .error e => .error [e]
+    | .ok r => .ok r
+
+mutual
+/-- `expandValue`: new value and `changed` -/
+def expandValue (env : Env) : Val → Except Errs (Val × Bool)
+  | .expanded v orig =>
+    match expandValue env v with
+    | .error e => .error e
+    | .ok (e, changed) =>
+      match e with
+      | .expanded .. => .ok (e, changed)        -- "Return expanded values or strings verbatim."
+      | .str _ => .ok (e, changed)
+      | _ =>
+        -- the original representation is expanded as well
+        match expandStr env orig with
+        | .error _ => .ok (e, changed)
+        | .ok (.str o, oc) => .ok (.expanded e o, changed || oc)
+        | .ok _ => .ok (e, changed)
+  | .str s => expandStr env s
+  | .list xs =>
+    match expandVals env xs with
+    | .error e => .error e
+    | .ok (ys, c) => .ok (.list ys, c)
+  | .map kvs =>
+    match expandKVs env kvs with
+    | (_, _, e :: es) => .error (e :: es)
+    | (m, c, []) => .ok (.map m, c)
+  | v => .ok (v, false)
+def expandVals (env : Env) : Vals → Except Errs (Vals × Bool)
+  | .nil => .ok (.nil, false)
+  | .cons v vs =>
+    match expandValue env v with
+    | .error e => .error e                      -- first failing element, in order
+    | .ok (v', c) =>
+      match expandVals env vs with
+      | .error e => .error e
+      | .ok (vs', c') => .ok (.cons v' vs', c || c')
+/-- map iteration order is random in Go: children are independent, errors are collected -/
+def expandKVs (env : Env) : KVs → KVs × Bool × Errs
+  | .nil => (.nil, false, [])
+  | .cons k v rest =>
+    let r := expandKVs env rest
+    match expandValue env v with
+    | .error e => (r.1, r.2.1, e ++ r.2.2)
+    | .ok (v', c) => (.cons k v' r.1, c || r.2.1, r.2.2)
+end
+
+/-- `expandValueRecursively` with the loop bound as a parameter -/
+def expandRec (env : Env) : Nat → Val → Except Errs Val
+  | 0, _ => .error [.tooMany]
+  | n+1, v =>
+    match expandValue env v with
+    | .error e => .error e
+    | .ok (v', false) => .ok v'
+    | .ok (v', true) => expandRec env n v'
+
+/-! ## `escapeDollarSigns` -/
+
+/-- `strings.ReplaceAll(s, "$$", "$")` -/
+def unescape : Str → Str
+  | [] => []
+  | [c] => [c]
+  | c :: d :: r => if c = '$' ∧ d = '$' then '$' :: unescape r else c :: unescape (d :: r)
+
+mutual
+def escapeDollarSigns : Val → Val
+  | .str s => .str (unescape s)
+  | .expanded v o => .expanded (escapeDollarSigns v) (unescape o)
+  | .list xs => .list (escVals xs)
+  | .map m => .map (escKVs m)
+  | v => v
+def escVals : Vals → Vals
+  | .nil => .nil
+  | .cons v vs => .cons (escapeDollarSigns v) (escVals vs)
+def escKVs : KVs → KVs
+  | .nil => .nil
+  | .cons k v r => .cons k (escapeDollarSigns v) (escKVs r)
+end
+
+/-- what `Resolve` does with one value: expand to a fixed point, then un-escape -/
+def resolveValue (env : Env) (v : Val) : Except Errs Val :=
+  match expandRec env env.fuel v with
+  | .error e => .error e
+  | .ok v' => .ok (escapeDollarSigns v')
+
+/-! ## `Resolve`: flatten, per-key expansion in sorted key order, unflatten -/
+
+/-- koanf `maps.Flatten`: leaves are non-map values and empty maps -/
+def flatten (pfx : List Str) : KVs → List (List Str × Val)
+  | .nil => []
+  | .cons k v rest =>
+    (match v with
+     | .map m => if m.isEmpty then [(pfx ++ [k], v)] else flatten (pfx ++ [k]) m
+     | _ => [(pfx ++ [k], v)]) ++ flatten pfx rest
+
+def joinKey : List Str → Str
+  | [] => []
+  | [k] => k
+  | k :: ks => k ++ ':' :: ':' :: joinKey ks
+
+/-- byte-wise `<` (Go string comparison used by `sort.Strings`) -/
+def strLt : Str → Str → Bool
+  | [], [] => false
+  | [], _ :: _ => true
+  | _ :: _, [] => false
+  | a :: as, b :: bs => if a.toNat < b.toNat then true else if b.toNat < a.toNat then false else strLt as bs
+
+/-- insert a value at a key path (`maps.Unflatten`, one key) -/
+def insertPath : List Str → Val → KVs → KVs
+  | [], _, m => m
+  | [k], v, m => m.set k v
+  | k :: k2 :: ks, v, m =>
+    match m.lookup k with
+    | some (.map sub) => m.set k (.map (insertPath (k2 :: ks) v sub))
+    | some _ => m                      -- not reachable from leaf paths of a tree
+    | none => m.set k (.map (insertPath (k2 :: ks) v .nil))
+
+def unflatten (leaves : List (List Str × Val)) : KVs :=
+  leaves.foldl (fun m kv => insertPath kv.1 kv.2 m) .nil
+
+/-- the `for _, k := range retMap.AllKeys()` loop -/
+def resolveLeaves (env : Env) : List (List Str × Val) → Except Errs (List (List Str × Val))
+  | [] => .ok []
+  | (p, v) :: rest =>
+    match resolveValue env v with
+    | .error e => .error e
+    | .ok v' =>
+      match resolveLeaves env rest with
+      | .error e => .error e
+      | .ok r => .ok ((p, v') :: r)
+
+def sortedLeaves (m : KVs) : List (List Str × Val) :=
+  (flatten [] m).mergeSort (fun a b => !strLt (joinKey b.1) (joinKey a.1))
+
+/-- `Resolver.Resolve` without converters: sources → resolved config (with `expandedValue` leaves) -/
+def resolve (env : Env) (srcs : List Val) : Except Errs KVs :=
+  match srcs.mapM asConf with
+  | none => .error [.notMap]
+  | some ms =>
+    match resolveLeaves env (sortedLeaves (mergeSources ms)) with
+    | .error e => .error e
+    | .ok leaves => .ok (unflatten leaves)
+
+/-! ## reading the result: `sanitize` (ToStringMap) and `useExpandValue` (typed targets) -/
+
+mutual
+/-- `sanitizeExpanded(a, useOriginal)` -/
+def sanitize (useOriginal : Bool) : Val → Val
+  | .expanded v o => if useOriginal then .str o else v
+  | .list xs => .list (sanVals useOriginal xs)
+  | .map m => .map (sanKVs useOriginal m)
+  | v => v
+def sanVals (useOriginal : Bool) : Vals → Vals
+  | .nil => .nil
+  | .cons v vs => .cons (sanitize useOriginal v) (sanVals useOriginal vs)
+def sanKVs (useOriginal : Bool) : KVs → KVs
+  | .nil => .nil
+  | .cons k v r => .cons k (sanitize useOriginal v) (sanKVs useOriginal r)
+end
+
+/-- decoding a resolved value into a Go `string` field (`useExpandValue` then mapstructure, no weak typing):
+`some s` = the field's value, `none` = decode error -/
+def decodeString : Val → Option Str
+  | .expanded _ o => some o          -- castTo(exp, useOriginal = true)
+  | .str s => some s
+  | .null => some []                 -- nil input leaves the zero value
+  | _ => none
+
+/-- decoding into an `int` field: the parsed value is used -/
+def decodeInt : Val → Option Int
+  | .expanded (.int i) _ => some i
+  | .expanded .null _ => some 0      -- "use the default value of `to`'s kind"
+  | .int i => some i
+  | .null => some 0
+  | _ => none
+
+/-- decoding into a `bool` field -/
+def decodeBool : Val → Option Bool
+  | .expanded (.bool b) _ => some b
+  | .expanded .null _ => some false
+  | .bool b => some b
+  | .null => some false
+  | _ => none
+
+/-! ## reference semantics on token lists (the specification side of `C12_tokens`) -/
+
+inductive Tok where
+  | lit (s : Str)                          -- literal text free of `$` and `}`
+  | close                                  -- a literal `}`
+  | esc                                    -- `$$`
+  | dollar                                 -- a lone `$` (not before `{` or `$`)
+  | ref (scheme : Option Str) (name : Str) -- `${scheme:name}` / `${name}`
+  deriving DecidableEq
+
+def Tok.body : Option Str → Str → Str
+  | some sc, name => sc ++ ':' :: name
+  | none, name => name
+
+def Tok.render : Tok → Str
+  | .lit s => s
+  | .close => ['}']
+  | .esc => ['$', '$']
+  | .dollar => ['$']
+  | .ref sc name => '$' :: '{' :: Tok.body sc name ++ ['}']
+
+def render : List Tok → Str
+  | [] => []
+  | t :: ts => t.render ++ render ts
+
+/-- the string a reference stands for: what the provider returns, as a string -/
+def refString (env : Env) (sc : Option Str) (name : Str) : Option Str :=
+  match (match sc with | some s => some s | none => env.defaultScheme) with
+  | none => none
+  | some scheme => (env.prov scheme name).bind Retrieved.asString
+
+/-- meaning of a token list: literals stand for themselves, `$$` for one `$`, a reference for its value -/
+def sem (env : Env) : List Tok → Option Str
+  | [] => some []
+  | .lit s :: ts => (sem env ts).map (s ++ ·)
+  | .close :: ts => (sem env ts).map ('}' :: ·)
+  | .esc :: ts => (sem env ts).map ('$' :: ·)
+  | .dollar :: ts => (sem env ts).map ('$' :: ·)
+  | .ref sc name :: ts =>
+    match refString env sc name, sem env ts with
+    | some v, some r => some (v ++ r)
+    | _, _ => none
+
+def startsWithDollarOrBrace : Str → Bool
+  | c :: _ => c == '$' || c == '{'
+  | [] => false
+
+/-- well-formed token list: the rendering parses back to these tokens unambiguously, and every reference is
+one the resolver can look up (registered scheme, plain name) with a `$`-free string value -/
+def tokOK (env : Env) : List Tok → Bool
+  | [] => true
+  | .lit s :: ts => !hasDollar s && !hasClose s && tokOK env ts
+  | .close :: ts => tokOK env ts
+  | .esc :: ts => tokOK env ts
+  | .dollar :: ts => !startsWithDollarOrBrace (render ts) && tokOK env ts
+  | .ref sc name :: ts =>
+    !hasDollar name && !hasClose name
+    && (match sc with
+        | some s => validScheme s && env.schemes.contains s
+        | none => !hasColon name && (match env.defaultScheme with
+                                     | some d => validScheme d && env.schemes.contains d
+                                     | none => false))
+    && (match refString env sc name with
+        | some v => !hasDollar v
+        | none => false)
+    && tokOK env ts
+
+def numRefs : List Tok → Nat
+  | [] => 0
+  | .ref .. :: ts => numRefs ts + 1
+  | _ :: ts => numRefs ts
+
 end OtelVerif.C12
